@@ -20,25 +20,28 @@ Record c12obs := mkO12 {
 (* the kind of object build_cov_model creates for a bin specification (CovergroupModel.equals compares classes):
    1 = single bag bin, 2 = bin array over one range, 3 = collection with one entry per range, 4 = partitioned collection,
    5 = enum bin *)
-Definition tag_of (ex : rlist) (b : binspec) : Z :=
+(* for a collection with one entry per range the entries themselves are compared ([0,0],[1,1] and [0,1] hold the same
+   values but are different objects): the ranges follow the tag *)
+Definition tag_of (ex : rlist) (b : binspec) : list Z :=
   match b with
-  | BBin _ => 1
+  | BBin _ => [1]
   | BArray n rl =>
     match trim (compact rl) ex with
     | Some r =>
+      let per_range := 3 :: flat_map (fun x => [fst x; snd x]) r ++ [-99] in
       match n with
-      | None => if Nat.eqb (length r) 1 then 2 else 3
-      | Some k => if k <? count r then 4 else 3
+      | None => if Nat.eqb (length r) 1 then [2] else per_range
+      | Some k => if k <? count r then [4] else per_range
       end
-    | None => 0
+    | None => [0]
     end
   end.
 Definition cp_tags (c : cpspec) : list Z :=
   let ex := exclude_of c in
   match cp_kind c with
   | KBins bs =>
-    map fst (filter (fun p => match snd p with Some m => negb (is_nil m) | None => true end)
-                    (map (fun b => (tag_of ex b, build_binspec ex b)) bs))
+    flat_map fst (filter (fun p => match snd p with Some m => negb (is_nil m) | None => true end)
+                         (map (fun b => (tag_of ex b, build_binspec ex b)) bs))
   | KAutoInt sg w m =>
     match trim [type_range sg w] ex with Some r => [if m <? count r then 4 else 3] | None => [] end
   | KAutoEnum vals => match cp_models c with Some ms => map (fun _ => 5) ms | None => [] end
